@@ -188,6 +188,14 @@ Extras(e) ==
            /\ Len(Sq(e.doc.metadata, "authors")) # Len(Sq(e.doc1.metadata, "authors")) THEN {"obs.cdx.meta.authors"} ELSE {})
   \cup (IF Ok(e.w1) /\ Ok(e.r1) /\ "metadata" \in DOMAIN e.doc /\ "metadata" \in DOMAIN e.doc1
            /\ Len(Sq(e.doc1.metadata, "tools")) < Len(Sq(e.doc.metadata, "tools")) THEN {"obs." \o e.fmt \o ".meta.tools-lost"} ELSE {})
+  \* comment, date (to the second), authors and identifier of the document across one write / read pass
+  \cup (IF Ok(e.w1) /\ Ok(e.r1) /\ "metadata" \in DOMAIN e.doc /\ "metadata" \in DOMAIN e.doc1
+        THEN (IF MetaF(e.doc, "comment") # MetaF(e.doc1, "comment") THEN {"obs." \o e.fmt \o ".meta.comment"} ELSE {})
+             \cup (IF "date" \in DOMAIN e.doc.metadata /\ ("date" \notin DOMAIN e.doc1.metadata \/ e.doc1.metadata.date.sec # e.doc.metadata.date.sec)
+                   THEN {"obs." \o e.fmt \o ".meta.date"} ELSE {})
+             \cup (IF Len(Sq(e.doc1.metadata, "authors")) < Len(Sq(e.doc.metadata, "authors")) THEN {"obs." \o e.fmt \o ".meta.authors-lost"} ELSE {})
+             \cup (IF MetaF(e.doc, "id") # MetaF(e.doc1, "id") THEN {"obs." \o e.fmt \o ".meta.id"} ELSE {})
+        ELSE {})
 
 Judge(e) ==
   CASE e.op = "RT" ->
